@@ -88,6 +88,12 @@ def main_for(pid, tier, replay=None):
             scen += objs
             exports.append({"class": label, "texel": f"{tn}/{td}", "mode": mode, "max_edits": maxedits, "random_shapes": nrandom, "max_perturb": maxperturb,
                             "model_states": r["distinct"], "model_transitions": r["generated"], "scenarios_used": len(objs), "wall_s": r["wall_s"]})
+    # giant genomes: a sample of the valid maps with every base stretched to 2^25 bases (scaffolds of several Gbp, coordinates beyond 2^32);
+    # the outputs are brought back to the fine grid before TLC judges them
+    if pid in ("C01", "C02"):
+        base = [x for x in scen if x.get("route") != "cli" and x["valid"] == 1 and x["cls"] == "valid"]
+        for x in rng.sample(base, min(len(base), 400 if tier == "quick" else 4000)):
+            scen.append(dict(x, giant=1))
     for i, s in enumerate(scen, 1):
         s["tid"] = i
     traces = C.pmap("harness.remap_engine", "run_scenario", [x for x in scen if x.get("route") != "cli"], chunk=300)
